@@ -818,6 +818,18 @@ def _backend_runs(check: Check):
       check.ob('R-YIELD1.every', run, f'for ... in {clients_p}', not jumps,
                'every client yields a result: no `continue` skips a client (one without batches still gets final(init(shared, input)))',
                node=jumps[0] if jumps else n.ast, exact=True)
+    for fn_ in (call, run):
+      fff_ = FuncFlow.of(repo, fn_)
+      for _, c_ in fff_.calls():
+        if (fff_.ext(c_.func) or '') in ('builtins.id', 'builtins.hash'):
+          check.ob('R-PURE.backend-state', fn_, txt(c_)[:40], False,
+                   'object identity is used as a key: a freed object and a new one can share an address, so something remembered under '
+                   'id(x) is handed to a different x', node=c_, exact=True)
+      for x_ in ast.walk(fn_.node):
+        if isinstance(x_, ast.Attribute) and isinstance(x_.ctx, ast.Store) and isinstance(x_.value, ast.Name) and x_.value.id == 'self':
+          check.ob('R-PURE.backend-state', fn_, txt(x_), False,
+                   'the backend object is written while it is called: what one call stores is seen by every later call of every '
+                   'for_each_client function that uses this backend', node=x_, exact=True)
     outer_locals = {name for name, bs in call.scope.bindings.items() if not any(b.kind == 'param' for b in bs)}
     for mu in pa.mutations(run):
       root = mu.root
